@@ -324,7 +324,7 @@ func init() {
 
 // ---------------------------------------------------------------- scenario
 
-var c10dealFaults = []string{"honest", "bad-share", "bad-commit", "wrong-index", "t-zero", "t-one", "t-n+1", "wrong-recipient", "forged-sig", "cipher-flip", "dh-tampered", "replayed", "missing-share", "garbage-plaintext", "other-session"}
+var c10dealFaults = []string{"honest", "bad-share", "bad-commit", "wrong-index", "t-zero", "t-one", "t-n+1", "wrong-recipient", "forged-sig", "cipher-flip", "dh-tampered", "replayed", "missing-share", "garbage-plaintext", "other-session", "other-poly-same-sid"}
 var c10respBehav = []string{"as-is", "absent", "flip", "forged-key", "wrong-sid", "duplicate", "equivocate", "out-of-range-index"}
 var c10justKinds = []string{"correct", "wrong-share", "other-index", "other-poly", "none", "unsolicited-correct", "unsolicited-wrong", "wrong-then-correct", "correct-then-wrong", "other-index-then-correct"}
 
@@ -499,6 +499,7 @@ func c10run(r *mon.R, s *c10scn, scnIdx int) {
 	}
 	nontriv := false
 	// ---------------- phase 1: deals
+	commitClass := make([]string, n) // by construction: which commitments the deal handed to verifier i carries
 	goodDeal := make([]bool, n)   // by construction: verifier i received the dealer's own untouched deal
 	codeResp := make([]any, n)    // response produced by the code
 	codeApproved := make([]bool, n)
@@ -506,6 +507,14 @@ func c10run(r *mon.R, s *c10scn, scnIdx int) {
 		f := s.faults[i]
 		if f != "honest" {
 			nontriv = true
+		}
+		switch f {
+		case "bad-commit":
+			commitClass[i] = "altered"
+		case "other-session", "other-poly-same-sid":
+			commitClass[i] = "other-polynomial"
+		default:
+			commitClass[i] = "dealer"
 		}
 		var enc any
 		var e error
@@ -553,6 +562,11 @@ func c10run(r *mon.R, s *c10scn, scnIdx int) {
 		case "other-session":
 			// a valid deal of another run (other polynomial) by the same dealer key
 			enc, e = dealer2.honestEnc(i)
+		case "other-poly-same-sid":
+			// equivocating dealer: a self-consistent deal on another polynomial, labelled with this session's id
+			d2 := v.cloneDeal(suite, dealer2.plaintext(i))
+			copy(v.dealSid(d2), sid)
+			enc, e = dealer.sealStruct(i, d2)
 		default:
 			panic("unknown fault " + f)
 		}
@@ -571,7 +585,7 @@ func c10run(r *mon.R, s *c10scn, scnIdx int) {
 			_, ap := v.respInfo(resp)
 			codeResp[i] = resp
 			codeApproved[i] = ap
-			if ap && !goodDeal[i] && f != "other-session" {
+			if ap && !goodDeal[i] && f != "other-session" && f != "other-poly-same-sid" {
 				viol("ProcessEncryptedDeal/approved-bad-deal/"+f, "verifier approved a deal the harness built to be invalid ("+f+")", map[string]any{"verifier": i})
 			}
 			if !ap && goodDeal[i] {
@@ -769,6 +783,9 @@ func c10run(r *mon.R, s *c10scn, scnIdx int) {
 				r.Eval("response/"+ev.desc, fmt.Sprintf("%s|%d|%d|%d", v.name, scnIdx, obs, len(hist)), nontriv)
 				_, already := led.status[ev.idx]
 				if e == nil {
+					if ev.desc == "own" && codeResp[obs] != nil && int(ev.idx) < n && commitClass[obs] == "dealer" && commitClass[ev.idx] != "dealer" {
+						viol("ProcessResponse/approval-for-other-commitments-counted", "an observer holding the dealer's published commitments counted the response of a verifier whose deal carries other commitments (the response refers to another deal)", map[string]any{"observer": obs, "from": ev.idx, "observer_commitments": commitClass[obs], "sender_commitments": commitClass[ev.idx], "history": hist})
+					}
 					if !ev.validResp {
 						viol("ProcessResponse/accepted-forged-response/"+ev.desc, "observer accepted a response that is not validly signed by the verifier it names for this session", map[string]any{"observer": obs, "history": hist})
 					}
@@ -927,7 +944,7 @@ func c10run(r *mon.R, s *c10scn, scnIdx int) {
 // c10allSameSession: no verifier was handed material of another session (their responses carry another sid and are legitimately rejected).
 func c10allSameSession(s *c10scn) bool {
 	for _, f := range s.faults {
-		if f == "other-session" || f == "bad-commit" {
+		if f == "other-session" || f == "bad-commit" || f == "other-poly-same-sid" {
 			return false
 		}
 	}
